@@ -793,6 +793,14 @@ func (env *specEnv) evalCall(x *SCall) TV {
 			env.fail("hasPrefix needs a literal prefix")
 		}
 		return TV{T: hasPrefixTerm(a.T, lit), Sort: "Bool"}
+	case "hasSuffix": // hasSuffix(s, "lit")
+		argn(2)
+		a := env.eval(x.Args[0])
+		lit, ok := env.litString(x.Args[1])
+		if !ok {
+			env.fail("hasSuffix needs a literal suffix")
+		}
+		return TV{T: hasSuffixTerm(a.T, lit), Sort: "Bool"}
 	case "sentcount": // number of values sent on channel
 		argn(1)
 		a := env.eval(x.Args[0])
